@@ -189,3 +189,11 @@ func ZstdWithEncoderLevel(l zstd.EncoderLevel) zstd.EOption { return nil }
 
 //verif:replace github.com/klauspost/compress/zstd.EncoderLevelFromZstd
 func ZstdEncoderLevelFromZstd(level int) zstd.EncoderLevel { return zstd.SpeedDefault }
+
+//verif:replace github.com/klauspost/pgzip.NewWriterLevel
+func PgzipNewWriterLevel(w io.Writer, level int) (*pgzip.Writer, error) {
+	if level < pgzip.ConstantCompression || level > pgzip.BestCompression {
+		return nil, fmt.Errorf("gzip: invalid compression level: %d", level)
+	}
+	return PgzipNewWriter(w), nil
+}
